@@ -465,8 +465,10 @@ def step_unary(b: Builder):
     return b.op(name, [a], p, constant=draw_const_flag(b) if not name.startswith("op_") else None)
 
 
-def draw_const_flag(b):
+def draw_const_flag(b, is_view=False):
     if not b.allow_const_flag:
+        return None
+    if getattr(b, "flag_only_views", False) and not is_view:
         return None
     r = b.draw(st.integers(0, b.const_flag_odds))
     if r == 0:
@@ -573,7 +575,12 @@ def step_view(b: Builder, names=None):
         return None
     cf = None
     if name not in ("getitem", "T") and not p.get("method") and b.allow_const_view:
-        cf = draw_const_flag(b)
+        cf = draw_const_flag(b, is_view=True)
+        if cf is not None and name.startswith("atleast_") and getattr(b, "flag_only_views", False):
+            # known finding C04-atleast-kd-constant-alias (test-pinned upstream): excluded by construction from
+            # C04's histories and counted; its saved case is replayed by the regression tier
+            b.labels.add("excluded_known_atleast_kd_constant")
+            cf = None
     return b.op(name, [a], p, constant=cf)
 
 
@@ -945,6 +952,9 @@ def step_out(b: Builder):
         p["wshape"] = wshape
     if d(st.integers(0, 2)) == 0:
         p["via"] = "np"
+    elif d(st.integers(0, 3)) == 0:
+        p["constant"] = d(st.booleans())  # explicit constant= together with out=<Tensor>
+        b.labels.add("out_with_constant_kw")
     s = {"k": "inplace", "kind": "out", "op": name, "target": t, "args": args, "p": p}
     if b.try_emit(s):
         b.labels.add("out_where" if "where" in p else "out")
@@ -981,8 +991,16 @@ HISTORY_STEPS = [
 
 
 @st.composite
-def history_program(draw, max_steps=14, max_elems=16, with_shape_assign=True, with_fail=False):
+def history_program(draw, max_steps=14, max_elems=16, with_shape_assign=True, with_fail=False, flagged_views=False):
     b = Builder(draw, max_elems=max_elems, allow_int=False)
+    if flagged_views:
+        # view ops may carry an explicit constant= flag (C04 only: values/sharing do not depend on flags)
+        b.ref.flag_views = "memory"
+        b.allow_const_flag = True
+        b.allow_const_view = True
+        b.allow_const_false = True
+        b.const_flag_odds = 6
+        b.flag_only_views = True
     b.views_tensors_only = True
     nleaves = draw(st.integers(1, 3))
     for i in range(nleaves):
